@@ -75,17 +75,24 @@ def run_property(pid, tier, seed, only=None, keep=False, nworkers=16):
             verdict, text = ("error", "no counterexample values")
             custom = getattr(mod, "custom_replay", None)
             cands = [c[1] for c in (r.cex_all or [])] or ([r.cex] if r.cex is not None else [])
+            rank = {"reproduced": 4, "unrealised": 3, "holds": 2, "inadmissible": 1, "error": 0}
+            best = None
             for cand in cands[:6]:
                 if not exes:
                     break
                 v = decode_inputs(cand, j.n_inputs)
                 if j.replay == "body":
-                    verdict, text = kani.replay_native(exes, j.body, j.params, v)
+                    vd, tx = kani.replay_native(exes, j.body, j.params, v)
                 elif custom:
-                    verdict, text = custom(j, v, exes)
-                vals = v
-                if verdict == "reproduced":
+                    vd, tx = custom(j, v, exes)
+                else:
+                    continue
+                if best is None or rank.get(vd, 0) > rank.get(best[0], 0):
+                    best = (vd, tx, v)
+                if vd == "reproduced":
                     break
+            if best:
+                verdict, text, vals = best
             r.replay = {"verdict": verdict, "text": text, "inputs": [str(v) for v in vals]}
             if verdict == "reproduced":
                 role = mod.finding_role(j, vals, text) if hasattr(mod, "finding_role") else None
